@@ -17,12 +17,19 @@ type Lexer struct {
 
 	buf    bytes.Buffer
 	offset int
+
+	inComment bool // in a bracketed comment
 }
 
 // Token returns the next token.
 func (l *Lexer) Token() (Token, error) {
 	l.offset = l.buf.Len()
 	return l.layoutTextSequence(false)
+}
+
+// incomplete reports whether the input ended in the middle of a token or a bracketed comment.
+func (l *Lexer) incomplete() bool {
+	return l.inComment || l.buf.Len() > l.offset
 }
 
 func (l *Lexer) next() (rune, error) {
@@ -284,6 +291,7 @@ func (l *Lexer) commentOpen() (Token, error) {
 	case err != nil:
 		return Token{}, err
 	case r == '*':
+		l.inComment = true
 		return l.commentText(true)
 	default:
 		l.backup()
@@ -297,6 +305,7 @@ func (l *Lexer) commentClose() (Token, error) {
 	case err != nil:
 		return Token{}, err
 	case r == '/':
+		l.inComment = false
 		return l.layoutTextSequence(true)
 	case r == '*':
 		return l.commentClose()
